@@ -10,7 +10,7 @@ ENV.pop("GOSUMDB", None); ENV.pop("GOTOOLCHAIN", None)
 
 def sh(cmd, cwd=None, timeout=900):
     try:
-        r = subprocess.run(cmd, shell=True, cwd=cwd, env=ENV, stdout=subprocess.PIPE, stderr=subprocess.STDOUT, text=True, timeout=timeout)
+        r = subprocess.run(cmd, shell=True, cwd=cwd, env=ENV, stdout=subprocess.PIPE, stderr=subprocess.STDOUT, text=True, errors="replace", timeout=timeout)
         return r.returncode, r.stdout
     except subprocess.TimeoutExpired as e:
         return 124, (e.stdout or b"").decode() if isinstance(e.stdout, bytes) else (e.stdout or "")
